@@ -7,7 +7,6 @@ import (
 	"go/types"
 	"math/big"
 	"strings"
-
 )
 
 const (
@@ -490,6 +489,8 @@ func stubTimerStop(e *Engine, c *callCtx) bool {
 // ---------- errors / fmt ----------
 
 func (e *Engine) wrapErrType() types.Type {
+	e.mu.Lock()
+	defer e.mu.Unlock()
 	if t, ok := e.errTypeCache["wrapErr"]; ok {
 		return t
 	}
@@ -915,4 +916,3 @@ func stubItoa(e *Engine, c *callCtx) bool {
 	c.set(StrV{k: strOpaque, tag: "itoa", t: e.iconv(v, 64, true).t})
 	return true
 }
-
